@@ -51,6 +51,32 @@ fn main() {
             }
         };
         let case = body.get("case").cloned().unwrap_or(body.clone());
+        if let (Some(h), Some(tier)) = (case.get("hang").and_then(|x| x.as_str()), case.get("tier").and_then(|x| x.as_str())) {
+            let limit = case.get("limit_s").and_then(|x| x.as_u64()).unwrap_or(300);
+            let st = child_cmd(&[id.clone(), tier.to_string()])
+                .env("VERIF_ONLY", h)
+                .env("VERIF_HANG_LIMIT_S", limit.to_string())
+                .env("VERIF_EVIDENCE_PATH", format!("{}/harness/target/crash-probe-{}.json", verif_dir, id))
+                .stdout(std::process::Stdio::null())
+                .stderr(std::process::Stdio::null())
+                .status();
+            match st.map(|s| s.code()) {
+                Ok(Some(3)) => {
+                    println!("complaint: shard {} (exploration:shard) does not come back within {} s", h, limit);
+                    println!("case: {}", case);
+                    println!("VIOLATION property={} replay={}", id, path);
+                    std::process::exit(1);
+                }
+                Ok(c) => {
+                    println!("replay property={} case={} : the shard came back ({:?})", id, case, c);
+                    std::process::exit(if c == Some(1) { 1 } else { 0 });
+                }
+                Err(e) => {
+                    eprintln!("cannot start the replay child: {}", e);
+                    std::process::exit(2);
+                }
+            }
+        }
         if let (Some(slice), Some(tier)) = (case.get("crash_shard_mod").and_then(|x| x.as_str()), case.get("tier").and_then(|x| x.as_str())) {
             let st = child_cmd(&[id.clone(), tier.to_string()])
                 .env("VERIF_SHARD_MOD", slice)
@@ -191,6 +217,37 @@ fn supervise(cfg: &engine::RunCfg, args: &[String]) -> i32 {
             return 2;
         }
     };
+    if st.code() == Some(3) {
+        // the watchdog of the child: one shard did not come back
+        let hf = engine::hang_file(cfg);
+        let info = std::fs::read_to_string(&hf).ok().and_then(|s| serde_json::from_str::<serde_json::Value>(&s).ok());
+        let _ = std::fs::remove_file(&hf);
+        if let Some(info) = info {
+            let (ord, shard, limit) = (
+                info.get("exploration").and_then(|x| x.as_u64()).unwrap_or(0),
+                info.get("shard").and_then(|x| x.as_u64()).unwrap_or(0),
+                info.get("limit_s").and_then(|x| x.as_u64()).unwrap_or(0),
+            );
+            let mut rep = engine::CheckReport::new(
+                "exploration",
+                "supervisor: the exploration was run in a child process whose watchdog found one shard running longer than the per-shard limit",
+            );
+            let mut acc = engine::Acc::default();
+            acc.violation(|| {
+                (
+                    serde_json::json!({"hang": format!("{}:{}", ord, shard), "limit_s": limit, "tier": cfg.tier.name()}),
+                    format!(
+                        "the code under test did not come back: shard {} of exploration #{} of this check ran for more than {} s (the whole check takes well under that on the pinned tree); no diff result was delivered",
+                        shard, ord, limit
+                    ),
+                )
+            });
+            rep.part("hang", serde_json::json!({}), engine::Explored { acc, shards_total: 1, shards_done: 0, capped: false, wall_s: 0.0 });
+            return engine::conclude(cfg, rep);
+        }
+        eprintln!("harness error: the exploration child exited with code 3 without a watchdog record");
+        return 2;
+    }
     if let Some(c) = st.code() {
         return c;
     }
